@@ -1,8 +1,9 @@
 #!/bin/sh
-# usage: trymutant.sh <patch.diff> <command...>   : apply patch to /repo, run command in /verif, restore /repo
+# usage: trymutant.sh <patch.diff> <command...>   : apply patch to /repo, run command in /verif, un-apply the patch
+# (never `git checkout -- .`: that would also discard uncommitted contract edits)
 P="$1"; shift
 git -C /repo apply "$P" || { echo "PATCH DOES NOT APPLY"; exit 3; }
 cd /verif
 "$@"; rc=$?
-git -C /repo checkout -- .
+git -C /repo apply -R "$P" || echo "WARNING: could not un-apply $P"
 echo "exit=$rc"
